@@ -93,9 +93,9 @@ impl EventBatch {
             final(self).bufs@.len() == old(self).bufs@.len(),
             forall|j: int| 0 <= j < old(self).bufs@.len() && j != old(self).index ==> final(self).bufs@[j] == old(self).bufs@[j],
             final(self).bufs@[old(self).index as int]@.len() == 0,
-//@before let advanced
-        let ghost b0 = self.bufs@;
-        let ghost i0 = self.index as int;
+//@inside-start start
+        let ghost b0 = old(self).bufs@;
+        let ghost i0 = old(self).index as int;
 //@after let advanced
         proof {
             assert(advanced == b0[i0]);
